@@ -1,4 +1,5 @@
 """C12 -- incremental token expansion follows left-to-right incremental semantics (DESIGN.md section 4, C12)."""
+import itertools
 import z3
 from pyvc.api import Task, call, Interp, LoopSpec
 from pyvc.sym import (KStr, KSet, KSeq, SStr, SSet, SSeq, SBool, SInt, MutSet, And, Or, Not, Implies, concrete_of)
@@ -295,12 +296,51 @@ def enum_expansion(seed):
     return {"name": "C12.incremental_expansion.bounded_enumeration", "bound": "all streams of <=4 tokens over a 7-token alphabet, 2 initial sets, both finalize modes", "cases": cases, "failures": fails}
 
 
+def enum_collapsed(seed):
+    """collapsed_restrict_to_data (what package.keywords / package.license / package.accept_keywords entries are kept in): pull_data for a
+    package against expanding, left to right, the defaults followed by the tokens of every entry that matches it -- tokens may recur"""
+    import random
+    from pkgcore.ebuild.misc import collapsed_restrict_to_data, incremental_expansion
+    from pkgcore.ebuild.atom import atom
+    from pkgcore.restrictions import packages
+    from pkgcore.test.misc import FakePkg
+    rnd = random.Random(seed + 1212)
+    pkg = FakePkg("cat/pkg-1.0")
+    toks = ["a", "-a", "b", "-b", "-*", "~amd64", "-~amd64"]
+    lines = [list(t) for n in (1, 2, 3) for t in itertools.product(toks, repeat=n) if n < 3 or t[0].lstrip("-") == t[2].lstrip("-")]
+    atoms = [atom("cat/pkg"), atom("=cat/pkg-1*"), atom("=cat/pkg-1.0"), atom("cat/other")]
+    cases, fails = 0, []
+    for _ in range(6000):
+        defaults = rnd.choice(lines + [[]])
+        ents = [(rnd.choice(atoms), rnd.choice(lines)) for _ in range(rnd.choice((1, 2, 3)))]
+        cases += 1
+        stream = list(defaults) + [t for a, l in ents if a.match(pkg) for t in l]
+        want = set(incremental_expansion(stream))
+        try:
+            d = collapsed_restrict_to_data(((packages.AlwaysTrue, defaults),), ents)
+            got = set(d.pull_data(pkg))
+            got2 = set()
+            incremental_expansion(list(d.iter_pull_data(pkg)), orig=got2)   # iter_pull_data yields the token stream itself
+        except Exception as e:
+            if len(fails) < 4:
+                fails.append({"model": {"defaults": defaults, "entries": [(str(a), l) for a, l in ents]}, "detail": f"defaults {defaults}, entries {[(str(a), l) for a, l in ents]}: raised {type(e).__name__}: {e}"})
+            continue
+        if (got != want or got2 != want) and len(fails) < 4:
+            fails.append({"model": {"defaults": defaults, "entries": [(str(a), l) for a, l in ents]},
+                          "detail": f"defaults {defaults}, entries {[(str(a), l) for a, l in ents]} for cat/pkg-1.0: pull_data gives {sorted(got)}, iter_pull_data expands to {sorted(got2)}; "
+                                    f"the stream {stream} expands left to right to {sorted(want)}"})
+    return {"name": "C12.collapsed_restrict_to_data.bounded_enumeration", "bound": "6000 seeded configurations: defaults and 1..3 entries (4 atoms, 3 of them matching the package) of 1..3 tokens out of "
+            f"{toks}, the same token recurring with its negation in between", "cases": cases, "failures": fails}
+
+
 def tasks():
     fns = [(FILE, "incremental_expansion")]
     return [
         Task("C12.incremental_expansion", t_expansion, fns, enumerate=enum_expansion),
         Task("C12.incremental_expansion_license", t_license, [(FILE, "incremental_expansion_license")], enumerate=enum_license),
         Task("C12.optimize_incrementals", t_optimize, [(FILE, "optimize_incrementals")], bounded={"tokens": 4}),
+        Task("C12.collapsed_restrict_to_data", None, [(FILE, "collapsed_restrict_to_data.pull_data"), (FILE, "collapsed_restrict_to_data.iter_pull_data"), (FILE, "collapsed_restrict_to_data.__init__")],
+             enumerate=enum_collapsed),
     ]
 
 
